@@ -27,7 +27,7 @@ LEVEL = "exploration"
 
 TIERS = {
     # tables are drawn twice (rules as rows, rules as columns)
-    "quick": {"tables": 1024, "chunk": 32, "corruptions_per_drawing": 10, "exhaustive_drawings": 4, "random_texts": 3000, "shipped_reps": 2},
+    "quick": {"tables": 4092, "chunk": 62, "corruptions_per_drawing": 10, "exhaustive_drawings": 4, "random_texts": 3000, "shipped_reps": 2},
     "thorough": {"tables": 52000, "chunk": 130, "corruptions_per_drawing": 10, "exhaustive_drawings": 8, "random_texts": 60000, "shipped_reps": 10},
 }
 
@@ -44,6 +44,11 @@ def _err_class(msg):
     msg = re.sub(r"\[[^\[\]]*\]", "[_]", msg)
     msg = re.sub(r"\d+", "N", msg)
     return msg[:70]
+
+
+def psig(p):
+    """panic_signature with the frame spelled the same by the stable and the nightly toolchain."""
+    return re.sub(r"<([A-Za-z0-9_:]+)>", r"\1", panic_signature(p))
 
 
 def _num(s):
@@ -165,7 +170,7 @@ def check_total(acc, variant, item, rec, kind):
     if "panic" in rec:
         text = item_text(item)
         acc.violation(
-            panic_signature(rec["panic"]),
+            psig(rec["panic"]),
             "panic recognising a %s text on %s: %s at %s" % (kind, variant, rec["panic"].get("msg"), rec["panic"].get("loc")),
             {"kind": "nopanic", "variant": variant, "case": {"op": "recog", "texts": [text], "brief": True}, "expected": "a decision table or an error", "observed": {"panic": rec["panic"]}},
         )
@@ -301,6 +306,8 @@ def _chunk(acc, rng, cfg, first_table, n_tables, workdir, use_asan):
                 style = {"pad_big_p": 0.5, "tall_p": 0.5, "multiline_p": 0.6}
             text, info = gdraw.draw(t, orientation, rng, style)
             drawings.append((k, orientation, text, info["merged"]))
+            if info["crlf"]:
+                acc.bump("drawings_with_crlf")
             if info["multiline_cells"]:
                 acc.bump("drawings_with_multiline_cells")
             acc.bump("widest_cell:%02d" % min(info["widest_cell"], 30))
@@ -325,7 +332,8 @@ def _chunk(acc, rng, cfg, first_table, n_tables, workdir, use_asan):
             continue
         if state == "err":
             replay["observed"] = rec
-            acc.violation("rejected:%s:%s" % (orientation, _err_class(rec["err"])), "a table drawn by G-DRAW (%s) was rejected: %s\n%s" % ("/".join(combo_key(t, orientation, merged)), rec["err"], text), replay)
+            tag = ":first-input-reads-like-marker" if gdraw.norm(t["inputs"][0]["expr"]) in gdraw.MARKERS else ""
+            acc.violation("rejected:%s%s:%s" % (orientation, tag, _err_class(rec["err"])), "a table drawn by G-DRAW (%s) was rejected: %s\n%s" % ("/".join(combo_key(t, orientation, merged)), rec["err"], text), replay)
             continue
         got = gdraw.normalise_recognised(rec["dt"])
         diffs = gdraw.diff_fields(exp, got)
@@ -362,7 +370,7 @@ def _chunk(acc, rng, cfg, first_table, n_tables, workdir, use_asan):
         if "rs" in res and len(res["rs"]) == b - a:
             drecs[a:b] = res["rs"]
         else:
-            sig = panic_signature(res["panic"]) if "panic" in res else crash_signature(res, "c19-dtext")
+            sig = psig(res["panic"]) if "panic" in res else crash_signature(res, "c19-dtext")
             acc.violation(sig, "dtext batch died: %s" % json.dumps(res)[:300], {"kind": "nopanic", "variant": "dbg", "case": case, "observed": res})
     for (k, orientation, text), drec in zip(dmeta, drecs):
         if drec is None:
@@ -374,7 +382,7 @@ def _chunk(acc, rng, cfg, first_table, n_tables, workdir, use_asan):
         dcase = {"op": "dtext", "items": [{"text": text, "inputs": [gdraw.input_context(t, tup) for tup, _ in tuples]}]}
         replay = {"kind": "eval", "variant": "dbg", "case": dcase, "model_case": mcases[k]}
         if "panic" in drec:
-            acc.violation(panic_signature(drec["panic"]) + ":dtext-" + str(drec.get("stage")), "panic in %s of a drawn table: %s" % (drec.get("stage"), drec["panic"].get("msg")), dict(replay, observed=drec))
+            acc.violation(psig(drec["panic"]) + ":dtext-" + str(drec.get("stage")), "panic in %s of a drawn table: %s" % (drec.get("stage"), drec["panic"].get("msg")), dict(replay, observed=drec))
             continue
         twin_ok = "rs" in mrec
         if "err" in drec:
@@ -385,6 +393,7 @@ def _chunk(acc, rng, cfg, first_table, n_tables, workdir, use_asan):
             else:
                 acc.undecided += 1
                 acc.bump("eval_both_rejected")
+                acc.bump("eval_both_rejected:" + _err_class(drec["build_err"]))
             continue
         if not twin_ok:
             acc.undecided += len(tuples)
@@ -395,7 +404,7 @@ def _chunk(acc, rng, cfg, first_table, n_tables, workdir, use_asan):
             mv = mrec["rs"][j]
             acc.count += 1
             if "panic" in dv:
-                acc.violation(panic_signature(dv["panic"]) + ":dtext-eval", "panic evaluating a recognised table: %s" % dv["panic"].get("msg"), dict(replay, observed=dv))
+                acc.violation(psig(dv["panic"]) + ":dtext-eval", "panic evaluating a recognised table: %s" % dv["panic"].get("msg"), dict(replay, observed=dv))
                 continue
             if "panic" in mv:
                 acc.undecided += 1
@@ -507,74 +516,80 @@ SMALL_ALPHABET = ["┌", "┘", "╬", "╥", "╨", "╞", "╡", "─", "│",
 
 
 def arbitrary_unit(args):
-    """Arbitrary text: every string of length <= 3 over a 12-symbol alphabet, seeded random box/letter
-    soups, shuffled / spliced lines of real drawings, and every-position corruptions of a few drawings."""
-    seed, tier, workroot, use_asan = args
-    cfg = TIERS[tier]
+    """Arbitrary text, in parts: ("enum",) every string of length <= 3 over a 12-symbol alphabet;
+    ("random", k) seeded random box/letter soups, box rectangles, shuffled / spliced lines of real drawings;
+    ("positions", k) every-position corruptions of one small drawing (independent of the seed)."""
+    seed, tier, workroot, use_asan, part = args
     acc = Acc()
-    rng = rng_for(seed, "c19-arbitrary")
-    workdir = os.path.join(workroot, "arbitrary")
+    workdir = os.path.join(workroot, "arbitrary-" + "-".join(str(x) for x in part))
     os.makedirs(workdir, exist_ok=True)
     try:
-        texts, kinds = [""], ["enumerated"]
-        for a in SMALL_ALPHABET:
-            texts.append(a)
-            for b in SMALL_ALPHABET:
-                texts.append(a + b)
-                for c in SMALL_ALPHABET:
-                    texts.append(a + b + c)
-        kinds = ["enumerated"] * len(texts)
-        real = []
-        for k in range(40):
-            t = gdraw.random_table(rng, shape={"n": rng.randint(1, 3), "ni": rng.randint(1, 2)})
-            real.append(gdraw.draw(t, rng.choice(["row", "col"]), rng)[0])
-        soup = gdraw.BOX_CHARS + "  \n\nxU1"
-        for k in range(cfg["random_texts"]):
-            mode = k % 4
-            if mode == 0:
-                texts.append("".join(rng.choice(soup) for _ in range(rng.randint(1, 120))))
-                kinds.append("soup")
-            elif mode == 1:
-                w = rng.randint(1, 12)
-                lines = ["".join(rng.choice(gdraw.BOX_CHARS + " ") for _ in range(w)) for _ in range(rng.randint(1, 8))]
-                if rng.random() < 0.7:
-                    lines[0] = "┌" + lines[0][1:]
-                    lines[-1] = lines[-1][:-1] + "┘"
-                texts.append("\n".join(lines))
-                kinds.append("box-rectangle")
-            elif mode == 2:
-                lines = rng.choice(real).split("\n")
-                rng.shuffle(lines)
-                texts.append("\n".join(lines))
-                kinds.append("shuffled-lines")
-            else:
-                a, b = rng.choice(real).split("\n"), rng.choice(real).split("\n")
-                cut = rng.randint(0, len(a))
-                texts.append("\n".join(a[:cut] + b[rng.randint(0, len(b)) :]))
-                kinds.append("spliced-drawings")
-        items = [("text", x) for x in texts]
-        # every-position corruptions of a few small drawings (independent of the seed)
-        frng = rng_for(0, "c19-exhaustive-positions")
-        shapes = [
-            {"ni": 1, "no": 1, "na": 0, "n": 1, "name": False, "values": False},
-            {"ni": 2, "no": 2, "na": 1, "n": 2, "name": True, "values": True, "label": True},
-            {"ni": 1, "no": 1, "na": 1, "n": 2, "name": True, "values": True},
-            {"ni": 2, "no": 2, "na": 0, "n": 2, "name": False, "values": False, "label": True},
-        ]
-        n_exh = 0
-        for k in range(cfg["exhaustive_drawings"]):
-            t = gdraw.random_table(frng, shape=shapes[(k // 2) % len(shapes)])
+        items, kinds = [], []
+        if part[0] == "enum":
+            texts = [""]
+            for a in SMALL_ALPHABET:
+                texts.append(a)
+                for b in SMALL_ALPHABET:
+                    texts.append(a + b)
+                    for c in SMALL_ALPHABET:
+                        texts.append(a + b + c)
+            items = [("text", x) for x in texts]
+            kinds = ["enumerated"] * len(texts)
+            acc.bump("enumerated_texts", len(texts))
+        elif part[0] == "random":
+            rng = rng_for(seed, "c19-arbitrary", part[1])
+            real = []
+            for k in range(40):
+                t = gdraw.random_table(rng, shape={"n": rng.randint(1, 3), "ni": rng.randint(1, 2)})
+                real.append(gdraw.draw(t, rng.choice(["row", "col"]), rng)[0])
+            soup = gdraw.BOX_CHARS + "  \n\nxU1"
+            for k in range(RANDOM_TEXTS_PER_PART):
+                mode = k % 4
+                if mode == 0:
+                    items.append(("text", "".join(rng.choice(soup) for _ in range(rng.randint(1, 120)))))
+                    kinds.append("soup")
+                elif mode == 1:
+                    w = rng.randint(1, 12)
+                    lines = ["".join(rng.choice(gdraw.BOX_CHARS + " ") for _ in range(w)) for _ in range(rng.randint(1, 8))]
+                    if rng.random() < 0.7:
+                        lines[0] = "┌" + lines[0][1:]
+                        lines[-1] = lines[-1][:-1] + "┘"
+                    items.append(("text", "\n".join(lines)))
+                    kinds.append("box-rectangle")
+                elif mode == 2:
+                    lines = rng.choice(real).split("\n")
+                    rng.shuffle(lines)
+                    items.append(("text", "\n".join(lines)))
+                    kinds.append("shuffled-lines")
+                else:
+                    a, b = rng.choice(real).split("\n"), rng.choice(real).split("\n")
+                    cut = rng.randint(0, len(a))
+                    items.append(("text", "\n".join(a[:cut] + b[rng.randint(0, len(b)) :])))
+                    kinds.append("spliced-drawings")
+        else:
+            k = part[1]
+            frng = rng_for(0, "c19-exhaustive-positions", k)
+            t = gdraw.random_table(frng, shape=POSITION_SHAPES[(k // 2) % len(POSITION_SHAPES)])
             text = gdraw.draw(t, "row" if k % 2 == 0 else "col", frng, {"pad_big_p": 0.0, "pad_small": 1, "indent_max": 1, "preamble_p": 0.0, "trailer_p": 0.0})[0]
             for kind, edit in exhaustive_corruptions(text):
                 items.append(("edit", text, edit))
                 kinds.append(kind)
-                n_exh += 1
-        acc.bump("exhaustive_position_corruptions", n_exh)
-        acc.bump("exhaustive_position_drawings", cfg["exhaustive_drawings"])
+            acc.bump("exhaustive_position_corruptions", len(items))
+            acc.bump("exhaustive_position_drawings")
         corruption_pass(acc, items, kinds, workdir, "arb", use_asan)
+        shutil.rmtree(workdir, ignore_errors=True) if not acc.violations and not acc.inconclusive else None
     except runner.Inconclusive as e:
         acc.inconclusive.append(str(e)[:600])
     return acc
+
+
+RANDOM_TEXTS_PER_PART = 3000
+POSITION_SHAPES = [
+    {"ni": 1, "no": 1, "na": 0, "n": 1, "name": False, "values": False},
+    {"ni": 2, "no": 2, "na": 1, "n": 2, "name": True, "values": True, "label": True},
+    {"ni": 1, "no": 1, "na": 1, "n": 2, "name": True, "values": True},
+    {"ni": 2, "no": 2, "na": 0, "n": 2, "name": False, "values": False, "label": True},
+]
 
 
 # --------------------------------------------------------------------------------------------
@@ -611,7 +626,11 @@ def run(rep, tier, seed):
         n = min(cfg["chunk"], cfg["tables"] - first)
         units.append((chunk_unit, (seed, tier, c, first, n, workroot, asan_ok and c % 10 == 0)))
     units.append((shipped_unit, (seed, tier, workroot)))
-    units.append((arbitrary_unit, (seed, tier, workroot, asan_ok)))
+    units.append((arbitrary_unit, (seed, tier, workroot, asan_ok, ("enum",))))
+    for k in range(cfg["exhaustive_drawings"]):
+        units.append((arbitrary_unit, (seed, tier, workroot, asan_ok and k % 4 == 0, ("positions", k))))
+    for k in range(cfg["random_texts"] // RANDOM_TEXTS_PER_PART):
+        units.append((arbitrary_unit, (seed, tier, workroot, asan_ok and k % 10 == 0, ("random", k))))
     ctx = multiprocessing.get_context("fork")
     with ctx.Pool(processes=runner.NCPU) as pool:
         handles = [pool.apply_async(f, (a,)) for f, a in units]
@@ -640,6 +659,7 @@ def run(rep, tier, seed):
     rep.extra["drawings_recognised_as_drawn"] = counters.get("recognised_as_drawn", 0)
     rep.extra["drawings_with_merged_entries"] = counters.get("drawings_with_merged_entries", 0)
     rep.extra["drawings_with_multiline_cells"] = counters.get("drawings_with_multiline_cells", 0)
+    rep.extra["drawings_with_crlf_line_ends"] = counters.get("drawings_with_crlf", 0)
     rep.extra["drawings_by_widest_cell"] = group("widest_cell:")
     rep.extra["orientations"] = group("orientation:")
     rep.extra["hit_policy_markers_by_orientation"] = group("marker:")
